@@ -17,7 +17,7 @@ CHECKS = {
          "Scenarios biased to unused hints, large hint tables, Anon sets and references placed in contexts that render nothing; the import block must equal rendered paths + Anon paths, each once.",
          TB, "5 C04"),
  "C05": ("exploration", "runtime monitor with independent reserved-word oracles (go/token.IsKeyword, types.Universe); exhaustive keyword/universe x style x prefix x competition sub-domain plus random collision scenarios",
-         "Every keyword and universe identifier as last path element / ImportName / ImportAlias, with and without prefix, alone and against 1-3 competitors, numbered fall-backs with 8-129 competitors, and every last path element of 1-3 pieces over 10 character classes (complete enumeration, 8,776 cases), plus random multisets of paths competing for one base name; names must be unique, identifiers, and not reserved.",
+         "Every keyword and universe identifier as last path element / ImportName / ImportAlias, with and without prefix, alone and against 1-3 competitors, numbered fall-backs with 8-129 competitors, and every last path element of 1-3 pieces over 10 character classes (complete enumeration, 8,968 cases), plus random multisets of paths competing for one base name; names must be unique, identifiers, and not reserved.",
          TB, "5 C05"),
  "C06": ("exploration", "runtime monitor: go/types resolution of bare identifiers through dot imports / local declarations; import spec inspection",
          "Scenarios biased to local paths (NewFilePath, NewFilePathName), near-misses of the local path, 0-n dot imports, prefix; bare identifiers must resolve through `import . \"p\"` or to the local package, near-misses must be imported normally.",
